@@ -174,7 +174,7 @@ def r2(ctx):
     g = f.cfg
     outer = _field_loop(f)
     head = [n for n in g.nodes_of(outer) if n.kind == "join"][0]
-    cnt = _count_tests(f)
+    cnt = [t for t in _count_tests(f) if any(a is outer for a in f.module.ancestors(t.ast))] or _count_tests(f)     # the one that guards the field loop
     ctx.need(cnt, "C12.R2: no field-count test")
     c = compare(cnt[0].ast)
     q = c[0] if _is_count_expr(f, c[0]) else c[2]
